@@ -118,6 +118,7 @@ package block
 //@   modifies m.daIncludedHeight, durable m.store.meta["d"], durable m.store.metaHas["d"], m.exec.finalized
 //@   requires [inv] DAIncPersisted(m)
 //@   requires [bound] m.daIncludedHeight < 18446744073709551615
+//@   requires [wiring] m.pendingHeaders != nil && m.pendingHeaders.base != nil
 //@   observe fin := call SetFinal@1
 //@   observe per := call SetMetadata@1
 //@   ensures [plus-one] err == nil ==> m.daIncludedHeight == old(m.daIncludedHeight) + 1
@@ -159,7 +160,7 @@ package block
 //@ func (m *Manager) DAIncluderLoop(ctx, errCh)
 //@   property C07
 //@   modifies m.daIncludedHeight, durable m.store.meta, durable m.store.metaHas, m.exec.finalized
-//@   requires [m] m.headerCache != nil && m.dataCache != nil
+//@   requires [m] m.headerCache != nil && m.dataCache != nil && m.pendingHeaders != nil && m.pendingHeaders.base != nil
 //@   requires [inv] DAIncPersisted(m) && m.daIncludedHeight <= m.store.height
 //@   requires [height-bound] m.store.height < 18446744073709551615
 //@   observe isda := call IsDAIncluded
@@ -432,6 +433,7 @@ package block
 //@ func (m *Manager) SyncLoop(ctx, errCh)
 //@   property C02
 //@   requires [wiring] m.headerCache != nil && m.dataCache != nil && m.store != nil && m.metrics != nil && m.logger != nil && ctx != nil
+//@                       && m.pendingHeaders != nil && m.pendingHeaders.base != nil && m.pendingData != nil && m.pendingData.base != nil
 //@   requires [inv] SyncInv(m)
 //@   observe tsn := call trySyncNextBlock
 //@   observe si := call SetItem
